@@ -1,0 +1,25 @@
+//! Verification hook, compiled only with `--cfg fuellabs_sway_verif`.
+//!
+//! `point(role, access, value)` is called immediately *before* every access to the shared
+//! state of the compilation scheduling protocol (`is_compiling`, `retrigger_compilation`,
+//! the `cb_tx`/`cb_rx` channel, `finished_compilation`, `last_compilation_state`).
+//! An installed callback may record the access and may block the calling thread until an
+//! external scheduler lets it proceed. Without a callback the function does nothing.
+use std::sync::OnceLock;
+
+type Hook = Box<dyn Fn(&'static str, &'static str, i64) + Send + Sync>;
+
+static HOOK: OnceLock<Hook> = OnceLock::new();
+
+/// Installs the process-wide callback (first call wins).
+pub fn set_hook(hook: Hook) {
+    let _ = HOOK.set(hook);
+}
+
+/// `role`: "W" compilation thread, "H" notification handler, "Q" `wait_for_parsing`.
+#[inline]
+pub fn point(role: &'static str, access: &'static str, value: i64) {
+    if let Some(hook) = HOOK.get() {
+        hook(role, access, value);
+    }
+}
